@@ -9,6 +9,7 @@ the property text; nothing from /verif is shown to the agents.
 import json, subprocess, os, sys
 
 letter = sys.argv[1]
+harmless_only = len(sys.argv) > 2 and sys.argv[2] == 'harmless'
 props = [json.loads(l) for l in open('/verif/properties.jsonl')]
 for p in props:
     if p['id'] in ('C02', 'C17'):
@@ -62,5 +63,25 @@ Offline sandbox. Prefix every shell command that invokes go with:
 The default `go` (1.23.5) works; nothing can be downloaded. The test suite runs in a few seconds.
 When finished, reply with a 2-line summary per change. Do not write anywhere outside `{d}`.
 """
+    if harmless_only:
+        a = brief.index('## What to produce')
+        b = brief.index('### Files to write')
+        brief = brief[:a] + f"""## What to produce: five HARMLESS refactorings (r1 .. r5)
+
+Each is a realistic, NON-TRIVIAL refactoring (20-90 changed lines) of the functions that implement the property (and, where useful, of the helpers and validators they call), of the kind a careful maintainer does during clean-up or modernisation, and does NOT change observable behaviour for ANY input (including invalid input: same errors, same empty/partial results, same panics or absence of panics). Be bold: the more different the code looks, the better - as long as behaviour is identical. Each of the five must use a DIFFERENT idiom family; pick five from this list:
+1. closures and iterators: validation or per-element work moved into local closures, `func(yield)` iterators, `slices.Values`/`maps.Keys`-style pipelines, integer `for i := range n` loops, index-based instead of range loops, fused or split loops, labelled break/continue;
+2. small value types with methods (e.g. a `zoomPair`, `indexRange`, `parsedID`, `bounds` type) that carry validation (`valid()`, `contains()`), arithmetic and formatting; results passed around as structs instead of multiple return values;
+3. table-driven code: lookup tables, permutation tables, offset tables, precomputed power-of-two tables (built in `init` or a package-level `var ... = func() ... {{}}()`), dispatch maps of functions;
+4. error handling style: package-level sentinel errors, a local `fail := func(...) (..., error)` helper, named results with bare returns, `defer`-based error decoration that keeps the same error value/text, a single exit point with an `err` variable checked once, `errors.Is`-compatible wrapping that preserves messages, switch-true guard chains;
+5. standard-library replacements: `slices`, `maps`, `strings.Cut/Count/Fields/SplitSeq`, `strconv.AppendInt` into byte buffers, `strings.Builder`, `math.Ldexp`, `math/bits`, `cmp`, `min`/`max` builtins, unsigned-comparison range tests;
+6. generics: one generic helper replacing two or more near-duplicate functions (set operations, min/max selection, per-element conversion loops);
+7. moving checks between caller and callee: validation hoisted into a shared `validateXxx` helper returning `(parsed, error)` or `(value, ok)`, or pushed down into the constructor/parser, early returns replaced by nested conditionals or vice versa, recursion replaced by an explicit stack/loop or vice versa;
+8. data representation of intermediates: strings vs parsed integers, `[N]int64` arrays vs named fields, maps keyed by structs vs by strings, sets as `map[T]struct{{}}` vs sorted slices + `slices.Compact`, pre-sized slices filled by index and trimmed to the fill count.
+Do not touch exported signatures. The property must hold exactly as before and the existing suite must pass.
+
+""" + brief[b:]
+        brief = brief.replace("For each k in {m1, m2, r1, r2, r3}", "For each k in {r1, r2, r3, r4, r5}")
+        brief = brief.replace("For m1/m2 it FAILS with the mutation and PASSES on unmodified HEAD. For r1/r2/r3 it", "It")
+        brief = brief.replace("for m: which clause breaks and what input/sequence is needed; for r: why behaviour is unchanged", "why behaviour is unchanged, which idiom family (number) it uses")
     open(d + '/BRIEF.md', 'w').write(brief)
 print(sorted(os.listdir('/tmp/mut')))
